@@ -868,6 +868,142 @@ theorem allSome_eq_none {γ} {l : List (Option γ)} (h : allSome l = none) : non
       simp only [allSome, Option.map_eq_none_iff] at h
       exact List.mem_cons_of_mem _ (ih h)
 
+/-! ### the collate sort is THE stable descending sort -/
+
+theorem insertDesc_filter (key : α → Nat) (x : α) (l : List α) (k : Nat) :
+    (insertDesc key x l).filter (fun a => key a == k)
+      = if key x = k then x :: l.filter (fun a => key a == k) else l.filter (fun a => key a == k) := by
+  induction l with
+  | nil => by_cases hk : key x = k <;> simp [insertDesc, hk]
+  | cons y ys ih =>
+    by_cases h : key x < key y
+    · simp only [insertDesc, h, if_true, List.filter_cons, ih]
+      by_cases hk : key x = k
+      · have hy : ¬ key y = k := by omega
+        simp [hk, hy]
+      · simp [hk]
+    · simp only [insertDesc, h, if_false]
+      by_cases hk : key x = k <;> simp [List.filter_cons, hk]
+
+/-- Stability: within a class of equal keys the input order is kept. -/
+theorem sortDesc_filter (key : α → Nat) (l : List α) (k : Nat) :
+    (sortDesc key l).filter (fun a => key a == k) = l.filter (fun a => key a == k) := by
+  induction l with
+  | nil => simp [sortDesc]
+  | cons x xs ih =>
+    have : sortDesc key (x :: xs) = insertDesc key x (sortDesc key xs) := rfl
+    rw [this, insertDesc_filter, ih]
+    by_cases hk : key x = k <;> simp [hk]
+
+theorem sortDesc_isStable (key : α → Nat) (l : List α) :
+    Spec.IsStableDescSort key l (sortDesc key l) :=
+  ⟨sortDesc_sorted key l, sortDesc_filter key l⟩
+
+/-- Two descending lists with the same classes (each class in the same order) are equal. -/
+theorem desc_classes_unique (key : α → Nat) : ∀ {s₁ s₂ : List α},
+    s₁.Pairwise (fun a b => key b ≤ key a) → s₂.Pairwise (fun a b => key b ≤ key a) →
+    (∀ k : Nat, s₁.filter (fun a => key a == k) = s₂.filter (fun a => key a == k)) → s₁ = s₂ := by
+  intro s₁
+  induction s₁ with
+  | nil =>
+    intro s₂ _ _ hc
+    cases s₂ with
+    | nil => rfl
+    | cons b t =>
+      have := hc (key b)
+      simp at this
+  | cons a t₁ ih =>
+    intro s₂ h₁ h₂ hc
+    cases s₂ with
+    | nil =>
+      have := hc (key a)
+      simp at this
+    | cons b t₂ =>
+      simp only [List.pairwise_cons] at h₁ h₂
+      have ha : a ∈ (b :: t₂).filter (fun x => key x == key a) := by
+        rw [← hc (key a)]; simp
+      have hb : b ∈ (a :: t₁).filter (fun x => key x == key b) := by
+        rw [hc (key b)]; simp
+      have hab : key a ≤ key b := by
+        rcases List.mem_cons.1 (List.mem_filter.1 ha).1 with rfl | h
+        · exact Nat.le_refl _
+        · exact h₂.1 a h
+      have hba : key b ≤ key a := by
+        rcases List.mem_cons.1 (List.mem_filter.1 hb).1 with rfl | h
+        · exact Nat.le_refl _
+        · exact h₁.1 b h
+      have hk : key b = key a := by omega
+      have h0 := hc (key a)
+      simp only [List.filter_cons, hk, beq_self_eq_true, if_true, List.cons.injEq] at h0
+      obtain ⟨rfl, h0t⟩ := h0
+      congr 1
+      apply ih h₁.2 h₂.2
+      intro k
+      by_cases hka : key a = k
+      · subst hka; exact h0t
+      · have := hc k
+        simpa [List.filter_cons, hka] using this
+
+/-- **Uniqueness**: whatever satisfies the specification of the stable descending sort IS
+`sortDesc` (Python's `sorted(seq, key=len, reverse=True)`). -/
+theorem stableDescSort_unique (key : α → Nat) (l s : List α) (h : Spec.IsStableDescSort key l s) :
+    s = sortDesc key l :=
+  desc_classes_unique key h.1 (sortDesc_sorted key l)
+    (fun k => (h.2 k).trans (sortDesc_filter key l k).symm)
+
+/-! ### the time-first layout, read column by column, is the batch-first layout -/
+
+theorem padTo_eq_map_range (pad : β) {T : Nat} {s : List β} (h : s.length ≤ T) :
+    padTo pad T s = (List.range T).map (fun t => s.getD t pad) := by
+  apply List.ext_getElem?
+  intro i
+  unfold padTo
+  simp only [List.getElem?_append, List.getElem?_map, List.getElem?_replicate,
+    List.getD_eq_getElem?_getD]
+  by_cases hs : i < s.length
+  · have hi : i < T := by omega
+    simp [hs, hi]
+  · by_cases hi : i < T
+    · have h1 : i - s.length < T - s.length := by omega
+      have h2 : s[i]? = none := by simp; omega
+      simp [hs, hi, h1]
+    · have h1 : ¬ i - s.length < T - s.length := by omega
+      simp [hs, hi, h1]
+
+theorem column_padSequenceTF (pad : β) (seqs : List (List β)) (n : Nat) (hn : n < seqs.length) :
+    Spec.column n (padSequenceTF pad seqs) = padTo pad (maxLen seqs) seqs[n] := by
+  rw [padTo_eq_map_range pad (length_le_maxLen (List.getElem_mem hn))]
+  unfold Spec.column padSequenceTF
+  rw [List.filterMap_map]
+  have : ((fun row : List β => row[n]?) ∘ fun t => seqs.map (fun s => s.getD t pad))
+      = fun t => some (seqs[n].getD t pad) := by
+    funext t
+    simp [List.getElem?_map, List.getElem?_eq_getElem hn]
+  rw [this]
+  induction List.range (maxLen seqs) with
+  | nil => rfl
+  | cons t ts ih => simp
+
+/-- Reading a time-first padded batch entry by entry gives the batch-first padded batch. -/
+theorem columns_padSequenceTF (pad : β) (seqs : List (List β)) :
+    Spec.columns seqs.length (padSequenceTF pad seqs) = padSequence pad seqs := by
+  unfold Spec.columns padSequence
+  apply List.ext_getElem
+  · simp
+  · intro n h1 h2
+    have hn : n < seqs.length := by simpa using h1
+    simp only [List.getElem_map, List.getElem_range]
+    exact column_padSequenceTF pad seqs n hn
+
+/-- Shape of the time-first batch: `max_n len` time steps, each with one cell per batch entry. -/
+theorem padSequenceTF_shape (pad : β) (seqs : List (List β)) :
+    (padSequenceTF pad seqs).length = maxLen seqs ∧
+    ∀ row ∈ padSequenceTF pad seqs, row.length = seqs.length := by
+  refine ⟨by simp [padSequenceTF], ?_⟩
+  intro row hr
+  obtain ⟨t, _, rfl⟩ := List.mem_map.1 hr
+  simp
+
 end Collate
 
 /-! ## 5. `extract_window` -/
